@@ -89,6 +89,15 @@ func (h *Sources) Undo() {
 
 	var undo undoItem
 
+	// The text we start undoing from might not have been saved yet
+	// (typed characters are not): keep it, so that redo can come back to it.
+	if line.pos == 0 && line.items[len(line.items)-1].line != string(*h.line) {
+		line.items = append(line.items, undoItem{
+			line: string(*h.line),
+			pos:  h.cursor.Pos(),
+		})
+	}
+
 	// When undoing, we loop through preceding undo items
 	// as long as they are identical to the current line.
 	for {
